@@ -92,7 +92,7 @@ func runC15(tier string) int {
 	depth := 3
 	var machines []fsMachine
 	files := []string{"x_moq.go", "x_moq_test.go"}
-	ifsets := [][]string{{"A"}, {"A", "B"}, {"B", "A:Custom", "G"}, {"Z", "B", "A"}}
+	ifsets := [][]string{{"A"}, {"A", "B"}, {"B", "A:Custom", "G"}, {"Z", "Y", "A"}}
 	flagsets := [][]string{{}, {"-stub", "-with-resets"}, {"-pkg", "cli"}}
 	if tier == "thorough" {
 		depth = 4
